@@ -177,7 +177,7 @@ Definition add_sockaddr (d : kvs) (e : mev) : mev :=
       else e1
   end.
 Definition route (e : mev) (r : rec) : mev :=
-  if is_syscall r then with_data e (del (L "items") (m_data e))
+  if is_syscall r then e                                   (* its fields were taken by newEvent, without the item count *)
   else match r_data r with
        | None => warn e
        | Some d =>
@@ -192,7 +192,7 @@ Definition model_event (rs : list rec) : option mev :=
   | [r] => Some (match r_data r with Some d => distribute d m0 | None => warn m0 end)
   | l => match find is_syscall l with
          | None => None
-         | Some sc => let e0 := match r_data sc with Some d => distribute d m0 | None => warn m0 end in
+         | Some sc => let e0 := match r_data sc with Some d => distribute (del (L "items") d) m0 | None => warn m0 end in
                       Some (fold_left route l e0)
          end
   end.
